@@ -289,7 +289,28 @@ impl<'a> P<'a> {
             b'$' => Re::End,
             b'\\' => Re::Set(self.escape(false)?),
             b'*' | b'+' | b'?' | b'{' | b'}' | b')' | b']' | b'|' => return None,
-            c if c >= 0x80 => return None,
+            c if c >= 0x80 => {
+                // a non-ASCII character written literally: in byte mode it stands for
+                // the sequence of its UTF-8 bytes (one atom: a quantifier after it
+                // applies to the whole character). The pattern is a &str, so the
+                // sequence is well formed.
+                let extra = match c {
+                    0xc0..=0xdf => 1,
+                    0xe0..=0xef => 2,
+                    0xf0..=0xf7 => 3,
+                    _ => return None,
+                };
+                let mut seq = vec![Re::Set(set_of(move |x| x == c))];
+                for _ in 0..extra {
+                    let b = self.peek()?;
+                    if !(0x80..=0xbf).contains(&b) {
+                        return None;
+                    }
+                    self.i += 1;
+                    seq.push(Re::Set(set_of(move |x| x == b)));
+                }
+                Re::Cat(seq)
+            }
             c => Re::Set(set_of(move |x| x == c)),
         })
     }
